@@ -78,6 +78,16 @@ var ruleFold = &Rule{
 					bare = true
 				}
 			}
+			// what is returned instead of a unary node is the operand itself or a
+			// literal built for it — never a part of the operand: returning the
+			// operand of the operand drops two operators from the tree
+			// (`-(-$)` on [1, 2.5] would no longer apply minus to each element)
+			if u, ok := v.(*ssa.UnOp); ok && u.Op == token.MUL && bare {
+				if fa, ok := u.X.(*ssa.FieldAddr); ok && derivesFrom(fa.X, nodeP, 0) {
+					out.viol(key, p.pos(r.Instr.Pos()), fnName(fold), "a field of the operand ("+fieldName(fa)+") is returned in place of the unary node: an operator written in the path disappears from the tree, together with its check that the operand is numeric and its unwrapping of arrays")
+					continue
+				}
+			}
 			if bare {
 				out.ok(key, p.pos(r.Instr.Pos()), fnName(fold), "only for a literal without an accessor chain")
 			} else {
